@@ -747,6 +747,43 @@ def chunk_framing(prog, rep):
 
 
 # ---------------------------------------------------------------------------
+def header_index(prog, rep):
+    """W9-index: the array of parsed headers is indexed only below its count: every headers[i] -- in the parser that fills the
+    array and in the look-up the caller is given -- is controlled by a test i < nheaders of the count that belongs to that array
+    (the field beside it, or the parameter beside it).  `<=` reads and writes one element past the allocation."""
+    u = prog.unit(UNIT)
+    n = 0
+    for f in u.funcs:
+        if f.file != UNIT:
+            continue
+        pnames = {p["name"]: ("v", p["name"], p["id"]) for p in f.params}
+        done = set()
+        for e in f.all_elems():
+            if e.cls != "ArraySubscriptExpr":
+                continue
+            t = norm(e)
+            if t[0] != "[]":
+                continue
+            arr, ix = t[1], t[2]
+            if arr[0] == "." and arr[2] == "headers":
+                cnt = (".", arr[1], "nheaders")
+            elif arr[0] == "v" and arr[1] == "headers" and "nheaders" in pnames:
+                cnt = pnames["nheaders"]
+            else:
+                continue
+            if (e.block.id, ix) in done:
+                continue
+            done.add((e.block.id, ix))
+            n += 1
+            gs = [(op, L, R) for cond, truth in f.edge_conds(e) for op, L, R, _, _ in cond_atoms(cond, truth)]
+            ok = any(op == "<" and L == ix and R == cnt for op, L, R in gs)
+            rep.check(ok, "W9-index", "%s in %s: the index is below the array's count" % (e.text[:36], f.name), e.where,
+                      "no controlling test `%s < %s` (conditions here: %s)" % (show(ix), show(cnt), [(op, show(L), show(R)) for op, L, R in gs if L == ix][:4]),
+                      function=f.name, construct="header-index")
+    return n
+
+
+# ---------------------------------------------------------------------------
 def header_split(prog, rep):
     """W9: a header line is split the way the grammar says.  Optional whitespace is SP and HTAB, nothing else: the trailing trim
     cuts the line's last character exactly when it is one of the two (and only while the line is not empty), writing the
@@ -908,6 +945,28 @@ def eol_scan(prog, rep):
                       "with a stale byte beyond the valid data" % (addr, cnt), function=f.name, construct="eol-read")
     if n < 1:
         rep.defer_broken("W7: findeol reads nothing")
+    # what it answers: a position other than `buflen` is given only where the two bytes CR LF were found
+    for r in f.returns():
+        v = norm(r.kid(0)) if r.kids else None
+        if v is None or v == blen:
+            continue
+        ok = False
+        seen = []
+        for cond, truth in f.edge_conds(r):
+            for op, L, R, Le, _ in cond_atoms(cond, truth):
+                k = Le.strip() if Le is not None else None
+                seen.append((op, show(L), show(R)))
+                if k is not None and k.cls == "CallExpr" and k.callee == "memcmp" and op == "==" and R == ("c", 0):
+                    a0, a1, a2 = k.arg(0), k.arg(1), k.arg(2)
+                    at = norm(a0) if a0 is not None else None
+                    strs = [x.strip().strv for x in (a0, a1) if x is not None and x.strip() is not None and x.strip().strv is not None]
+                    other = [norm(x) for x in (a0, a1) if x is not None and (x.strip() is None or x.strip().strv is None)]
+                    if strs == [b"\r\n"] and a2 is not None and norm(a2) == ("c", 2) and other and other[0] in (("&", ("[]", buf, v)), ("+", buf, v), ("+", v, buf)):
+                        ok = True
+        cr = any(op == "==" and l in (show(("[]", buf, v)),) and r_ in ("13",) for op, l, r_ in seen)
+        lf = any(op == "==" and r_ == "10" and "+ 1" in l for op, l, r_ in seen)
+        rep.check(ok or (cr and lf), "W7-eol", "findeol answers `%s` only where CR LF was found" % r.text[:24], r.where,
+                  "conditions on this return: %s" % seen[:5], function=f.name, construct="eol-found")
 
 # ---------------------------------------------------------------------------
 def cookie_init(prog, rep, L):
@@ -1285,3 +1344,40 @@ def framing_order(prog, rep):
     ss = [c for c in g.calls("strstr")]
     rep.check(any(c.arg(1) is not None and c.arg(1).strip().strv == b"chunked" for c in ss), "W3-framing", "chunked token test", g.loc,
               "Transfer-Encoding value must be searched for 'chunked'", function="gotheaders", construct="chunked-token")
+    # ... and each framing is chosen under its own condition: chunked when the header exists and names the token, Content-Length
+    # when that header exists (and chunked was not chosen), connection close when neither did
+    def guards(e):
+        out = []
+        for cond, truth in g.edge_conds(e):
+            for op, L, R, Le, _ in cond_atoms(cond, truth):
+                k = Le.strip() if Le is not None else None
+                out.append((op, L, R, k))
+        return out
+
+    def found(gs, call, yes):
+        """the guards say the look-up `call` (or the variable holding its result) answered non-NULL (yes) / NULL (not yes)"""
+        holder = None
+        for e in g.all_elems():
+            if e.is_assign and e.op == "=" and e.kid(1) is not None and e.kid(1).strip() is call:
+                holder = norm(e.kid(0))
+        return any(R == ("c", 0) and op == ("!=" if yes else "==") and (k is call or (holder is not None and L == holder)) for op, L, R, k in gs)
+    routes = []
+    tok = [c for c in ss if c.arg(1) is not None and c.arg(1).strip().strv == b"chunked"]
+    for c in g.calls("callback_chunkedheader"):
+        gs = guards(c)
+        routes.append(("chunked", c, found(gs, te, True) and bool(tok) and found(gs, tok[0], True)))
+    for c in g.calls("get_body_gotclen"):
+        gs = guards(c)
+        routes.append(("Content-Length", c, found(gs, cl, True)))
+    for c in eof:
+        gs = guards(c)
+        routes.append(("connection close", c, found(gs, cl, False)))
+    for e in g.all_elems():
+        if e.is_assign and e.op == "=" and norm(e.kid(0))[0] == "." and norm(e.kid(0))[2] == "chunked" and norm(e.kid(1)) != ("c", 0):
+            gs = guards(e)
+            routes.append(("chunked flag", e, found(gs, te, True) and bool(tok) and found(gs, tok[0], True)))
+    for what, c, ok in routes:
+        rep.check(ok, "W3-framing", "the body is read as %s only under that framing's own condition" % what, c.where,
+                  "conditions on this route: %s" % [(op, show(L), show(R)) for op, L, R, _ in guards(c)][:6], function="gotheaders", construct="route:" + what)
+    if len(routes) < 4:
+        rep.defer_broken("W3: fewer than 4 framing routes found in gotheaders")
